@@ -16,7 +16,7 @@ func init() { core.Register(c04{}) }
 func (c04) ID() string    { return "C04" }
 func (c04) Level() string { return "fault_enumeration" }
 func (c04) Rule() string {
-	return "cases = workloads of batches (1..60 staged puts/deletes with repeats, values up to 2 blocks, every 3rd batch larger than DataFileSize so that it is flushed in pieces across files, Sync and non-Sync) between plain writes; crash images (process death, partial write, power loss; machinery of C03) are taken at every hooked I/O event and at the named points commit.afterFlush/commit.afterSeal while a batch is in flight and during the operation following it; a reopened image must dump to the state before or after the whole batch (atomicity), and must stay correct when it is used further (put, another committed batch, Sync, clean restart, second crash: the records of a batch that died must never come back), power-loss images taken after a Sync batch returned must contain it (d computed from durable offsets incl. the sealing record); after the crash phase the history continues with 3 clean restarts, further writes and a merge, each followed by a full dump vs model (durability). Non-trivial: >=1 batch flushed in >=2 writes and >=30 images; distinct = hash of (config, op list)"
+	return "cases = workloads of batches (1..60 staged puts/deletes with repeats, values up to 2 blocks, every 3rd batch larger than DataFileSize so that it is flushed in pieces across files, Sync and non-Sync) between plain writes; crash images (process death, partial write, power loss; machinery of C03) are taken at every hooked I/O event and at the named points commit.afterFlush/commit.afterSeal while a batch is in flight and during the operation following it; a reopened image must dump to the state before or after the whole batch (atomicity), and must stay correct when it is used further (put, another committed batch, Sync, clean restart, second crash: the records of a batch that died must never come back), power-loss images taken after a Sync batch returned must contain it (d computed from durable offsets incl. the sealing record); after the crash phase the history continues with 3 clean restarts, further writes and a merge, each followed by a full dump vs model (durability). Non-trivial: >=1 batch flushed in >=2 writes and >=30 images; distinct = hash of (config, op list) Every second continuation starts with Merge + adopting restart (remnants of an unsealed batch must not return through the rewrite), and every fourth case writes each key exactly once before its first batch (no garbage at all, reclaimable counter zero)."
 }
 func (c04) Assumptions() []string {
 	return []string{"same image model as C03", "the issuing goroutine calls only Batch methods while the batch is open"}
@@ -89,9 +89,25 @@ func (c04) Run(c core.Case, w *core.Worker) core.Result {
 		return res
 	}
 	nb := 0
+	noGarbage := c.Index%4 == 3
+	if noGarbage {
+		// a history without any garbage: every key written exactly once, no deletes, until the
+		// first batch starts (images inside that batch are recovered into a directory whose
+		// reclaimable counter is exactly zero)
+		for _, k := range keys {
+			if !cr.runMut(s, core.Op{Kind: "put", Key: k, VLen: r.Range(1, 400), VSeed: r.U64() | 1}) {
+				break
+			}
+		}
+		res.Add("cases_without_garbage_before_first_batch", 1)
+	}
 	for i := 0; i < cc.NOps && !s.Dead && res.Verdict != "violated"; i++ {
 		var op core.Op
 		switch {
+		case noGarbage && nb == 0 && i%3 != 1:
+			k := []byte(fmt.Sprintf("fresh%03d", i))
+			cr.ever[string(k)] = true
+			op = core.Op{Kind: "put", Key: k, VLen: r.Range(1, 400), VSeed: r.U64() | 1}
 		case i%3 == 1:
 			nb++
 			if nb%3 == 0 {
